@@ -14,7 +14,7 @@ import ast
 from ..absint import Config, Interp
 from ..harness import rule
 from ..index import AnalysisError, text
-from ..models import BASE_STUBS, explore_recv, mk_websocket, recv_config
+from ..models import RECV_LOOP, BASE_STUBS, explore_recv, mk_websocket, recv_config
 from ..rulekit import isym, new_obj, path_text
 from ..values import C, FALSE, INF, NONE, TRUE, App, Cls, Ext, Ref, Sym, Tup
 
@@ -144,27 +144,44 @@ def r2(ctx):
            "send_frame can return while part of the frame is still unwritten", loc, {"path": path_text(bad_done)} if bad_done else None)
 
 
-@rule("R-C12-3", min_instances=3, title="read side: recv() holds the read lock around recv_data; recv_frame holds the frame lock from the first stage test to clear()")
+@rule("R-C12-3", min_instances=3, title="read side: recv(), recv_data() and recv_data_frame() each take a frame and feed the reassembler inside one read-lock section; recv_frame holds the frame lock from the first stage test to clear()")
 def r3(ctx):
+    # every public way of receiving a message takes a frame and feeds the reassembler inside ONE read-lock section
+    def rf(I, run, args, kwargs, node):
+        run.effect("recv_frame", (), node=node)
+        return new_obj(run, "_abnf:ABNF", "frame", opcode=isym(run, "op", 0, 15), data=Sym("fd", "bytes"), fin=isym(run, "fin", 0, 1))
+
     stubs = dict(BASE_STUBS)
-    stubs[f"{W}.recv_data"] = lambda I, run, a, k, n: (run.effect("recv_data", (), node=n), Tup((C(2), Sym("data", "bytes"))))[1]
-    I = Interp(ctx.index, Config(stubs=stubs))
+    stubs.update({f"{W}.recv_frame": rf, f"{W}.pong": lambda I, run, a, k, n: NONE, f"{W}.send_close": lambda I, run, a, k, n: NONE,
+                  "_abnf:continuous_frame.validate": lambda I, run, a, k, n: (run.effect("cont.validate", (), node=n), NONE)[1],
+                  "_abnf:continuous_frame.add": lambda I, run, a, k, n: (run.effect("cont.add", (), node=n), NONE)[1],
+                  "_abnf:continuous_frame.is_fire": lambda I, run, a, k, n: Sym("fire", "bool"),
+                  "_abnf:continuous_frame.extract": lambda I, run, a, k, n: (run.effect("cont.extract", (), node=n), Tup((C(2), a[1])))[1]})
+    I = Interp(ctx.index, Config(stubs=stubs, loop_unroll=2, single_iteration=set(RECV_LOOP)))
+    for entry, args in (("recv", []), ("recv_data", [FALSE]), ("recv_data_frame", [FALSE])):
+        def body(run, entry=entry, args=args):
+            ws = mk_websocket(I, run)
+            return I.call(run, I.getattr(run, ws, entry, None), list(args), {}, None)
 
-    def body(run):
-        ws = mk_websocket(I, run)
-        return I.call(run, I.getattr(run, ws, "recv", None), [], {}, None)
-
-    outs = ctx.count_paths(I.explore(body))
-    bad = None
-    for o in outs:
-        lock = _ws_field(o, "readlock")
-        spans = _lock_spans(o, lock)
-        for i, e in enumerate(o.effects):
-            if e.name == "recv_data" and not any(a < i < b for a, b in spans):
+        outs = ctx.count_paths(I.explore(body))
+        bad = None
+        n = 0
+        for o in outs:
+            lock = _ws_field(o, "readlock")
+            spans = _lock_spans(o, lock)
+            idxs = [i for i, e in enumerate(o.effects) if e.name in ("recv_frame", "cont.validate", "cont.add", "cont.extract")]
+            if not idxs:
+                continue
+            n += 1
+            holders = {next((s_ for s_ in spans if s_[0] < i < s_[1]), None) for i in idxs}
+            if None in holders or len(holders) > 1:
                 bad = bad or o
-    ctx.ob(f"{W}.recv:recv_data-under-readlock", bad is None and bool(outs),
-           "recv_data() is called inside `with self.readlock`" if bad is None else
-           "recv() calls recv_data() without holding the read lock: two receiving threads can split one message", ctx.index.loc(ctx.index.func(f'{W}.recv').node))
+        if n == 0:
+            raise AnalysisError(f"{entry}() never takes a frame")
+        ctx.ob(f"{W}.{entry}:frame-and-reassembly-under-readlock", bad is None,
+               f"{n} paths: recv_frame and the reassembler run inside one `with self.readlock` section" if bad is None else
+               f"{entry}() takes a frame / feeds the reassembler without holding the read lock (or across two sections): two receiving threads can split or mix one message",
+               ctx.index.loc(ctx.index.func(f"{W}.{entry}").node), {"path": path_text(bad)} if bad else None)
     # frame lock
     Ir = Interp(ctx.index, recv_config())
     Ir.cfg.record_calls = set(Ir.cfg.record_calls) | {"_abnf:frame_buffer.clear", "_abnf:frame_buffer.recv_header"}
